@@ -231,18 +231,20 @@ func runC11(w *World, r *Report) {
 		for _, alt := range ReturnAlts(nc, 0) {
 			lit = alt.Val
 		}
-		calls := CallsIn(nc, false, "vacuum.NewMapVacuum")
+		// one construction per execution: a helper called once per map counts once per call,
+		// with that call's arguments
+		calls := boundCallsIn(nc, "vacuum.NewMapVacuum")
 		if len(calls) != 2 || lit == nil {
 			r.Undec("R4", "NewTxnPoliciesAccessor/vacuums", nc.Pos(), "expected two NewMapVacuum calls, found %d", len(calls))
 		} else {
 			for i, c := range calls {
-				a := c.Common().Args
+				a := c.Args
 				field := []string{"txnVersions", "policiesVersions"}[i]
 				sameMap := sameVal(a[4], litField(lit, field))
 				sameMu := sameVal(a[5], litField(lit, "mutex"))
 				vf := litField(lit, field+"Vacuum")
-				stored := vf != nil && Derives(vf, func(x ssa.Value) bool { return x == c.Value() })
-				r.Check(isConstVal(a[2], ttlC) && isConstVal(a[3], tickC) && sameMap && sameMu && stored, "R4", "NewTxnPoliciesAccessor/"+field+"Vacuum", posOf(c),
+				stored := vf != nil && c.Val != nil && Derives(vf, func(x ssa.Value) bool { return x == c.Val })
+				r.Check(isConstVal(a[2], ttlC) && isConstVal(a[3], tickC) && sameMap && sameMu && stored, "R4", "NewTxnPoliciesAccessor/"+field+"Vacuum", posOf(c.In),
 					"NewMapVacuum(ttl=%s, tick=%s, map=%s, mutex=%s) (want staleVersionTTL, vacuumTick, the accessor's own %s map and mutex; stored in %sVacuum=%v)", Path(a[2]), Path(a[3]), Path(a[4]), Path(a[5]), field, field, stored)
 			}
 		}
